@@ -26,7 +26,7 @@ Score_adv == {<<p, v>> : p \in {"p2", "p3"}, v \in {-3, 0}}
 
 \* ---- IDONTWANT in / out
 Acc_idw   == {<<"m1", "p1">>, <<"m2", "p2">>}
-IDW_idw   == {<<"p2", s>> : s \in {<<"m1">>, <<"m2">>, <<"m2", "m2", "m1">>}}
+IDW_idw   == {<<"p2", s>> : s \in {<<"m1">>, <<"m2">>, <<"m2", "m2", "m1">>}} \cup {<<"p2", <<"m2", "m1">>, <<1, 1>>>>}   \* the last: two entries in one RPC
 IWant_idw == {<<"p2", <<"m1">>>>}
 
 A_Serve         == [][P_C17_Serve]_vars
